@@ -229,6 +229,18 @@ def kernel_phase(rep, module, namespace, obligations, tag=None):
     hits = forbidden_scan(lean_sources())
     if hits:
         rep.coverage['forbidden_tokens'] = hits
+    if ok and rep.tier == 'thorough':
+        # independent re-check of the compiled module by the toolchain's leanchecker (replays every declaration
+        # of the .olean through a fresh kernel instance)
+        with Lock():
+            rc, out, dt = run(['lake', 'env', 'leanchecker', module], cwd=LEAN, timeout=3000)
+        rep.coverage.setdefault('leanchecker', {})[module] = dict(rc=rc, seconds=round(dt, 1))
+        if rc != 0:
+            rep.failed[f'leanchecker:{module}'] = out[-400:]
+            bad |= set(names)
+            for n in names:
+                if n in rep.discharged:
+                    rep.discharged.remove(n)
     return ok and not bad and not hits, hits
 
 
